@@ -17,6 +17,8 @@ def _val(v):
         return tuple(_val(x) for x in v)
     if isinstance(v, np.ndarray):
         return tuple(tuple(complex(z) for z in row) for row in np.round(v, 9))
+    if isinstance(v, lw.Parameter):
+        return ("Parameter", v.get(), v.min_bound, v.max_bound, v.label)
     if hasattr(v, "fields") and hasattr(v, "values"):
         return (type(v).__name__,) + tuple(_val(x) for x in v.values())
     return v
@@ -371,17 +373,33 @@ def _sum_keeps_operands(n: int, m1: int, m2: int) -> bool:
     return observe(a) == oa and observe(b) == ob and s.n_modes == n
 
 
-def _emulators_keep_circuit(n: int, h: int, hp: int, which: int, lossy: bool) -> bool:
-    """
-    pre: 2 <= n <= 3 and 0 <= h <= n and 0 <= hp <= 1 and 0 <= which <= 3
-    post: _
-    """
+def _untraced(fn, *args):
+    """CrossHair chooses the arguments; numba permanents, scipy and the
+    multimethod dispatch inside the consumers cannot be traced, so the call
+    itself runs concretely on the realised arguments."""
+    try:
+        from crosshair.core import deep_realize
+        from crosshair.tracers import NoTracing, is_tracing
+    except ImportError:
+        return fn(*args)
+    if is_tracing():
+        args = deep_realize(args)
+        with NoTracing():
+            return fn(*args)
+    return fn(*args)
+
+
+def _consumer_body(n, h, cross, hp, which, lossy, sub):
+    ho = (h + 1) % (n + 1) if cross else h
     c = lw.Circuit(n + 1)
     c.bs(0)
+    c.ps(0, lw.Parameter(0.4))
     c.bs(n - 1)
     if lossy:
         c.loss(0, 0.2)
-    c.herald(hp, h)
+    if sub:
+        c.add(_sub3(1), 0)
+    c.herald(hp, h, ho)
     inp = lw.State([1] + [0] * (n - 1))
     oc, oi = observe(c), inp.s
     try:
@@ -391,12 +409,68 @@ def _emulators_keep_circuit(n: int, h: int, hp: int, which: int, lossy: bool) ->
             s = lw.emulator.Sampler(c, inp)
             s.probability_distribution
             s.sample_N_outputs(5, seed=1)
+            s.sample_N_inputs(5, seed=1)
+            s.sample()
         elif which == 2:
-            if not lossy:
-                q = lw.emulator.QuickSampler(c, inp)
-                q.probability_distribution
-        else:
+            q = lw.emulator.QuickSampler(c, inp)
+            q.probability_distribution
+            q.sample_N_outputs(5, seed=1)
+        elif which == 3:
             lw.emulator.Analyzer(c).analyze(inp)
+        elif which == 4:
+            lw.interferometers.Reck().map(c, seed=3)
+        else:
+            em = lw.interferometers.ErrorModel()
+            em.loss = lw.interferometers.dists.TopHat(0.0, 0.1)
+            lw.interferometers.Reck(em).map(c, seed=3)
     except Exception:
         pass
     return observe(c) == oc and inp.s == oi
+
+
+def _consumer_simulator(n: int, h: int, cross: bool, hp: int, lossy: bool, sub: bool) -> bool:
+    """
+    pre: 2 <= n <= 3 and 0 <= h <= n and 0 <= hp <= 1
+    post: _
+    """
+    return _untraced(_consumer_body, n, h, cross, hp, 0, lossy, sub)
+
+
+def _consumer_sampler(n: int, h: int, cross: bool, hp: int, lossy: bool, sub: bool) -> bool:
+    """
+    pre: 2 <= n <= 3 and 0 <= h <= n and 0 <= hp <= 1
+    post: _
+    """
+    return _untraced(_consumer_body, n, h, cross, hp, 1, lossy, sub)
+
+
+def _consumer_quick_sampler(n: int, h: int, cross: bool, hp: int, lossy: bool, sub: bool) -> bool:
+    """
+    pre: 2 <= n <= 3 and 0 <= h <= n and 0 <= hp <= 1
+    post: _
+    """
+    return _untraced(_consumer_body, n, h, cross, hp, 2, lossy, sub)
+
+
+def _consumer_analyzer(n: int, h: int, cross: bool, hp: int, lossy: bool, sub: bool) -> bool:
+    """
+    pre: 2 <= n <= 3 and 0 <= h <= n and 0 <= hp <= 1
+    post: _
+    """
+    return _untraced(_consumer_body, n, h, cross, hp, 3, lossy, sub)
+
+
+def _consumer_reck(n: int, h: int, cross: bool, hp: int, lossy: bool, sub: bool) -> bool:
+    """
+    pre: 2 <= n <= 3 and 0 <= h <= n and 0 <= hp <= 1
+    post: _
+    """
+    return _untraced(_consumer_body, n, h, cross, hp, 4, lossy, sub)
+
+
+def _consumer_reck_noisy(n: int, h: int, cross: bool, hp: int, lossy: bool, sub: bool) -> bool:
+    """
+    pre: 2 <= n <= 3 and 0 <= h <= n and 0 <= hp <= 1
+    post: _
+    """
+    return _untraced(_consumer_body, n, h, cross, hp, 5, lossy, sub)
